@@ -27,14 +27,11 @@ package badger
 
 // ---- Finalize (C06): nodes inserted by a finalized root are never classified as garbage ----
 
-//@ ghost var GRootsSaved int
-
 //@ func badgerNodeDB.Finalize
 //@   props C06
 //@   requires d != nil
 //@   loop 7 invariant forall j int :: 0 <= j && j < idx() ==> updatedNodes[j].Removed || (inDom(notLoneNodes, updatedNodes[j].Hash) && notLoneNodes[updatedNodes[j].Hash])
-//@   loop 6 invariant rootsChanged || (forall k api.TypedHash :: visited(k) ==> inDom(rootsMeta.Roots, k))
+//@   precall badger/v4\.Txn\)\.Delete$ :: rootsChanged || (inDom(finalizedRoots, rootHash) && finalizedRoots[rootHash])
 //@   precall badger\.rootsMetadata\)\.save$ :: rootsChanged
-//@   ensures-local err == nil && defined(rootsMeta) && !rootsChanged ==> GRootsSaved == old(GRootsSaved)
 //@   note roots metadata: a root is dropped from the version's roots metadata only together with the "changed" flag that makes Finalize persist the metadata - whatever the write-log setting - so that the database never keeps claiming a root whose nodes it has just deleted
 //@   note within the update list of one finalized root, every node the root inserted is marked "not lone" when the list has been processed, also when the same hash occurs earlier or later in the list as a removal (a removed and re-created node). NOT covered: that the mark survives the processing of the other roots of the version, and everything about what the lists contain
